@@ -264,3 +264,19 @@ Example C06_copy_nonvacuous :
   | _ => False
   end.
 Proof. repeat split; vm_compute; reflexivity. Qed.
+
+(* ---- tie to the CURRENT sources of Map.Json (json.go) and Map.Copy (mxj.go): go2v re-translates them on every run
+   (Gen/Pure_gen.v); GenProofs/PureG13.v proves that Json is marshalJSON(mv, flag) with flag the single optional
+   argument (false otherwise - the safe encoding is switched on by exactly Json(true)), and that Copy is Json()
+   followed by NewMapJson, for ANY marshaller / decoder (encoding/json: tied by the correspondence run). *)
+From Mxj Require Import Gen.Setters_gen Gen.PureSupport Gen.Pure_gen GenProofs.PureG5 GenProofs.PureG13.
+
+Theorem C06_json_code : forall (marshalJSON : value -> bool -> res str) st mv safe,
+  fn_Json marshalJSON st mv safe = of_res (marshalJSON (VMap mv) (opt_flag safe)).
+Proof. exact json_code. Qed.
+Print Assumptions C06_json_code.
+
+Theorem C06_copy_code : forall (Json : entries -> list bool -> res str) (NewMapJson : str -> res entries) st mv,
+  fn_Copy Json NewMapJson st mv = of_res (bind (Json mv []) NewMapJson).
+Proof. exact copy_code. Qed.
+Print Assumptions C06_copy_code.
